@@ -397,6 +397,7 @@ pub struct Ctl {
     /// defect that makes memory grow with the work done must not exhaust the host's memory
     pub mem_ceiling: usize,
     pub stack_ceiling: usize,
+    pub saved_stack_ceiling: usize,
     pub ceiling_hit: bool,
 }
 
@@ -543,10 +544,11 @@ impl Ctl {
             gc_production: 0,
             poisoned: false,
             audit_work: 0,
-            audit_work_budget: 1_500_000_000,
+            audit_work_budget: 600_000_000,
             audit_budget_exhausted: false,
             mem_ceiling: 6_000_000,
             stack_ceiling: 6_000_000,
+            saved_stack_ceiling: 12_000_000,
             ceiling_hit: false,
         }
     }
@@ -555,7 +557,8 @@ impl Ctl {
     fn audit_now(&mut self, vm: &Vm) {
         self.audit_count += 1;
         let report = audit(vm);
-        self.audit_work += report.capacity as u64;
+        // an audit walks the heap and the stack
+        self.audit_work += report.capacity as u64 + vm.verif_stack().get_sp() as u64;
         if report.live_continuations > 0 {
             self.probes.gc_with_live_continuation += 1;
         }
@@ -656,9 +659,26 @@ impl Ctl {
         if self.poisoned {
             panic!("verif: heap audit found a corrupted heap; run stopped");
         }
-        if self.boundary % 2048 == 0 && (vm.verif_heap().capacity() > self.mem_ceiling || vm.verif_stack().len() > self.stack_ceiling) {
-            self.ceiling_hit = true;
-            panic!("{}: heap capacity {} cells, stack {} slots", MEMORY_CEILING_MESSAGE, vm.verif_heap().capacity(), vm.verif_stack().len());
+        let stack_len = vm.verif_stack().len();
+        if self.boundary % (if stack_len > 65536 { 256 } else { 2048 }) == 0 {
+            if vm.verif_heap().capacity() > self.mem_ceiling || stack_len > self.stack_ceiling {
+                self.ceiling_hit = true;
+                panic!("{}: heap capacity {} cells, stack {} slots", MEMORY_CEILING_MESSAGE, vm.verif_heap().capacity(), stack_len);
+            }
+            // every continuation in the heap (live or not yet swept) holds a copy of the stack: with
+            // a large stack that is where memory goes
+            if stack_len > 1024 || self.boundary % 32768 == 0 {
+                let mut saved = 0usize;
+                for c in vm.verif_heap().verif_cells() {
+                    if let marwood::vm::vcell::VCell::Continuation(k) = c {
+                        saved += k.stack().len();
+                    }
+                }
+                if saved > self.saved_stack_ceiling {
+                    self.ceiling_hit = true;
+                    panic!("{}: continuations hold {} saved stack slots", MEMORY_CEILING_MESSAGE, saved);
+                }
+            }
         }
         let next_op = vm.verif_next_opcode().map(|o| opcode_id(&o)).unwrap_or(0);
         if self.record_ops {
